@@ -1176,10 +1176,12 @@ impl Bitboard {
         let result = self.generate_pseudo_legal_moves().into_iter().find(|mv| mv.to_uci_string() == uci).ok_or_else(|| MoveDoesNotExist(uci.to_string()))?;
 
         self.make(result);
-        if !self.is_valid() {
+        let is_valid = self.is_valid();
+        self.unmake(result);
+
+        if !is_valid {
             return Err(MoveIsNotValid(result));
         }
-        self.unmake(result);
 
         Ok(result)
     }
@@ -1378,6 +1380,7 @@ impl Bitboard {
 
         self.make(result);
         if !self.is_valid() {
+            self.unmake(result);
             return Err(MoveIsNotValid(result));
         }
 
